@@ -239,7 +239,7 @@ func init() {
 		TrustedBase: []string{"harness normal form + tree transformations internal/nf"},
 		Guards:      map[string]int64{"unmarshal_ok": 20000},
 		Run: func(c *fx.Ctx) {
-			o := corpusOpts{structDepth: c.Pick(6, 7), floatStride: c.Pick(64, 8), latlong: 5, arrayFullMax: c.Pick(2, 4)}
+			o := corpusOpts{refMaxLen: c.Pick(9, 12), structDepth: c.Pick(6, 7), floatStride: c.Pick(64, 8), latlong: 5, arrayFullMax: c.Pick(2, 4)}
 			forEachCorpusDoc(c, o, func(doc []ev.E, cls string) {
 				untypedRoundTrip(c, codec.CBE, doc, cls)
 				untypedRoundTrip(c, codec.CTE, doc, cls)
